@@ -21,7 +21,7 @@ CONSTANTS MaxN,        \* bound on leaves ever added
           Acts,        \* enabled actions: subset of {"mod","undo","prove","restore","enc"}
           MaxPerm,     \* request orders: all permutations up to this size
           MinN,        \* wide configurations: every state with MinN <= n <= MaxN - MaxAdds and at most
-          InitLive     \* InitLive live leaves is an initial state (InitLive < 0: start from the empty accumulator)
+          InitLive     \* InitLive live leaves is an initial state (InitLive >= 99: start from the empty accumulator)
 
 VARIABLES n, live, stack, marks, hist
 
@@ -110,14 +110,14 @@ InitHist(x, lv) ==
     \o (IF dead = {} THEN <<>> ELSE <<ModStepAt(x, 0..(x - 1), AscSeq(dead), 0, NoEnc)>>)
 
 Init == /\ stack = <<>> /\ marks = [und |-> 0, rst |-> 0, probe |-> 0]
-        /\ IF InitLive < 0
+        /\ IF InitLive >= 99
            THEN n = 0 /\ live = {} /\ hist = <<>>
            ELSE /\ n \in MinN..(MaxN - MaxAdds)     \* room for one full block
                 /\ live \in {S \in SUBSET (0..(n - 1)) : Cardinality(S) <= InitLive}
                 /\ hist = InitHist(n, live)
 
 \* wide configurations: blocks start from sparse states only
-WideOK == InitLive < 0 \/ Cardinality(live) <= InitLive
+WideOK == InitLive >= 99 \/ Cardinality(live) <= InitLive
 
 Push(rec) == IF MaxStack = 0 THEN <<>>
              ELSE SubSeq(<<rec>> \o stack, 1, IF Len(stack) + 1 > MaxStack THEN MaxStack ELSE Len(stack) + 1)
